@@ -57,6 +57,7 @@ def config(rng, tier):
         "xio": rng.random() < 0.25,
         "tg_span": rng.choice(["none", "given", "given"]),
         "maxn": rng.choice([8] * 22 + [24, 40]),
+        "names": rng.choice(["abcd"] * 5 + ["prefix", "odd", "unicode"]),
         "crash": rng.random() < 0.15,  # inject crashes at arbitrary lines inside mutators (observation only)
     }
 
@@ -444,7 +445,7 @@ def tg_catalogue(g, w, h, tiers, tgs, wide, fileno, files_on):
     rng = g.rng
     tg = w.heap[h]
     names = list(tg.tierNames)
-    absent = [n for n in NAMES if n not in names] or ["zz"]
+    absent = [n for n in g.names if n not in names] or ["zz"]
     pool = g.pool_of(tg)
     cat = []
     free = [x for x in tiers if w.heap[x].name not in names]
@@ -473,7 +474,7 @@ def tg_catalogue(g, w, h, tiers, tgs, wide, fileno, files_on):
         cat.append({"op": "tg.replaceTier", "recv": h, "a": [g.pick(names), g.pick([None, 7])],
                     "k": {"reportingMode": g.pick(REPORT)}, "tag": "F-nontier"})
     cat.append({"op": "tg.removeTier", "recv": h, "a": [g.pick(absent)], "tag": "F-missing"})
-    cat.append({"op": "tg.renameTier", "recv": h, "a": [g.pick(absent), g.pick(NAMES)], "tag": "F-missing"})
+    cat.append({"op": "tg.renameTier", "recv": h, "a": [g.pick(absent), g.pick(g.names)], "tag": "F-missing"})
     if len(names) > 1:
         old = g.pick(names)
         cat.append({"op": "tg.renameTier", "recv": h, "a": [old, g.pick([n for n in names if n != old])],
@@ -551,6 +552,11 @@ def tg_catalogue(g, w, h, tiers, tgs, wide, fileno, files_on):
         if its:
             variants.append(("bad-minimumIntervalLength",
                              {"a": [g.pick(FORMATS), True], "k": {"minimumIntervalLength": "short", "reportingMode": "silence"}}))
+        # overrides together with reportingMode='error' (validation happens against the textgrid's own span)
+        variants.append(("override-with-error-mode",
+                         {"a": [g.pick(FORMATS), rng.random() < 0.5],
+                          "k": {"maxTimestamp": float(tg.maxTimestamp) + g.pick([1.0, 2.5]),
+                                "minTimestamp": g.pick([None, 0.0]), "reportingMode": "error"}}))
         if not valid:
             variants.append(("invalid-tg-error-mode", {"a": [g.pick(FORMATS), rng.random() < 0.5],
                                                        "k": {"reportingMode": "error"}}))
@@ -705,7 +711,7 @@ def generate(run, rng):
             tgh = g.pick(tgs)
             tg = w.heap[tgh]
             names = list(tg.tierNames)
-            absent = [n for n in NAMES if n not in names]
+            absent = [n for n in g.names if n not in names]
             k = rng.random()
             free = [x for x in tiers if w.heap[x].name not in names]
             if k < 0.45 and free:
